@@ -41,6 +41,9 @@ type c15Exchange struct {
 	Cut       int      `json:"cut"`
 	ReplyCut  int      `json:"replycut"`
 	Clients   int      `json:"clients"`
+	// HalfClose (copy): the client shuts down its sending side after its stream and only then
+	// reads; the backend answers when it has seen the end of the stream
+	HalfClose bool `json:"halfclose"`
 }
 
 type c15Seen struct {
@@ -103,6 +106,7 @@ func headerLines(h http.Header, drop ...string) []string {
 
 type c15Rig struct {
 	proxyHTTP, proxyCopy, proxyDNS string
+	proxySSH                       string
 	mu                             sync.Mutex
 	httpSeen                       map[string][]c15Seen // by X-Client header
 	httpReplied                    map[string][]c15Seen
@@ -111,6 +115,7 @@ type c15Rig struct {
 	decoy                          int
 	replyPlan                      map[string][]int
 	replyCut                       map[string]int
+	replyAtEOF                     map[string]bool
 }
 
 func listenLocal() (net.Listener, string) {
@@ -197,7 +202,10 @@ func (r *c15Rig) copyBackend(l net.Listener) {
 						name = string(all[:i])
 					}
 				}
-				if name != "" && !replied {
+				r.mu.Lock()
+				atEOF := r.replyAtEOF[name]
+				r.mu.Unlock()
+				if name != "" && !replied && (!atEOF || err != nil) {
 					replied = true
 					r.mu.Lock()
 					plan := r.replyPlan[name]
@@ -331,11 +339,14 @@ func (r *c15Rig) run(ex c15Exchange) c15Result {
 		r.mu.Lock()
 		r.replyPlan[name] = ex.Replies
 		r.replyCut[name] = ex.ReplyCut
+		r.replyAtEOF[name] = ex.HalfClose
 		r.mu.Unlock()
 		wg.Add(1)
 		go func() {
 			defer wg.Done()
 			switch ex.Kind {
+			case "ssh":
+				r.runSSH(ex, ci, name, &res, note)
 			case "http":
 				c, err := net.DialTimeout("tcp", r.proxyHTTP, 3*time.Second)
 				if err != nil {
@@ -408,6 +419,11 @@ func (r *c15Rig) run(ex c15Exchange) c15Result {
 					c.Write(stream[cut:])
 				} else {
 					c.Write(stream)
+				}
+				if ex.HalfClose {
+					if tc, ok := c.(*net.TCPConn); ok {
+						tc.CloseWrite()
+					}
 				}
 				total := 0
 				for _, x := range ex.Replies {
@@ -491,10 +507,12 @@ func c15Main(args []string) error {
 	quietLogs()
 	defer cleanupScratch()
 	rig := &c15Rig{httpSeen: map[string][]c15Seen{}, httpReplied: map[string][]c15Seen{}, copySeen: map[string][]byte{}, dnsSeen: map[string][][]byte{},
-		replyPlan: map[string][]int{}, replyCut: map[string]int{}}
+		replyPlan: map[string][]int{}, replyCut: map[string]int{}, replyAtEOF: map[string]bool{}}
 	hb, hbAddr := listenLocal()
 	cb, cbAddr := listenLocal()
 	dl, dlAddr := listenLocal()
+	sb, sbAddr := listenLocal()
+	go rig.sshBackend(sb)
 	udp, err := net.ListenPacket("udp", "127.0.0.1:0")
 	if err != nil {
 		return err
@@ -503,7 +521,19 @@ func c15Main(args []string) error {
 	go rig.copyBackend(cb)
 	go rig.dnsBackend(udp)
 	go rig.decoyListener(dl)
-	p1, p2 := freeTCPPort(), freeTCPPort()
+	// three distinct ports: all listeners are held open until all have been chosen
+	var held []net.Listener
+	var ports []int
+	for i := 0; i < 3; i++ {
+		l, _ := listenLocal()
+		held = append(held, l)
+		ports = append(ports, l.Addr().(*net.TCPAddr).Port)
+	}
+	for _, l := range held {
+		l.Close()
+	}
+	p1, p2 := ports[0], ports[1]
+	rig.proxySSH = fmt.Sprintf("127.0.0.1:%d", ports[2])
 	pu, _ := net.ListenPacket("udp", "127.0.0.1:0")
 	p3 := pu.LocalAddr().(*net.UDPAddr).Port
 	pu.Close()
@@ -530,6 +560,15 @@ host=%q
 [director.decoy]
 type="forward"
 host=%q
+[director.dssh]
+type="forward"
+host=%q
+[service.sp]
+type="ssh-proxy"
+director="dssh"
+[[port]]
+port="tcp/%s"
+services=["sp"]
 [service.hp]
 type="http-proxy"
 director="dhttp"
@@ -548,7 +587,7 @@ services=["cp"]
 [[port]]
 port="udp/%s"
 services=["dp"]
-`, hbAddr, cbAddr, udp.LocalAddr().String(), dlAddr, rig.proxyHTTP, rig.proxyCopy, rig.proxyDNS)
+`, hbAddr, cbAddr, udp.LocalAddr().String(), dlAddr, sbAddr, rig.proxySSH, rig.proxyHTTP, rig.proxyCopy, rig.proxyDNS)
 	if _, err := startServerAny(cfg); err != nil {
 		return err
 	}
